@@ -450,6 +450,23 @@ def const_int(e):
         return r
     if e.k == 'cast' and e.args:
         return const_int(e.args[0])
+    # constant folding of integer arithmetic (the compiler leaves `65 + 32` as a checked add at mir-opt-level 0)
+    if e.k == 'field' and e.name == '0' and e.args:
+        b = strip(e.args[0])
+        if b.k == 'binop' and b.name.endswith('WithOverflow'):
+            x, y = const_int(b.args[0]), const_int(b.args[1])
+            if x is not None and y is not None:
+                op = b.name[:-len('WithOverflow')]
+                return {'Add': x + y, 'Sub': x - y, 'Mul': x * y}.get(op)
+    if e.k == 'binop' and len(e.args) == 2 and e.name in ('Add', 'Sub', 'Mul', 'Div', 'Rem', 'Shl', 'Shr', 'BitAnd', 'BitOr', 'BitXor', 'AddUnchecked', 'SubUnchecked', 'MulUnchecked'):
+        x, y = const_int(e.args[0]), const_int(e.args[1])
+        if x is not None and y is not None:
+            try:
+                return {'Add': x + y, 'Sub': x - y, 'Mul': x * y, 'Div': x // y if y else None, 'Rem': x % y if y else None,
+                        'Shl': x << y, 'Shr': x >> y, 'BitAnd': x & y, 'BitOr': x | y, 'BitXor': x ^ y,
+                        'AddUnchecked': x + y, 'SubUnchecked': x - y, 'MulUnchecked': x * y}[e.name]
+            except Exception:
+                return None
     return None
 
 
